@@ -502,3 +502,54 @@ def c13_event_ownership(prog):
         if not good:
             probs.append("the assigned value is not a new threading.Event()")
     return [GroundOb("C13.own.is_ready-event-per-application", not probs, "; ".join(probs), backend="ast")]
+
+
+def c16_e2e_seeded(prog):
+    """C16.struct.e2e-seeded: Node.__init__ creates the end-to-end generator as SequenceGenerator(self.state_id), with
+    state_id = int(time.time()) assigned before (AST obligation; SequenceGenerator.__init__'s contract then puts the low
+    12 bits of that start time into the high 12 bits of the first value)."""
+    import ast
+    fi = next((f for q, f in prog.functions.items() if q.endswith("node.node.Node.__init__")), None)
+    probs = []
+    if fi is None:
+        return [GroundOb("C16.struct.e2e-seeded", False, "Node.__init__ not found", backend="ast")]
+    state_line = e2e_line = None
+    for n in ast.walk(fi.node):
+        tgt = None
+        if isinstance(n, ast.Assign) and len(n.targets) == 1:
+            tgt = n.targets[0]
+        elif isinstance(n, ast.AnnAssign):
+            tgt = n.target
+        if not (isinstance(tgt, ast.Attribute) and isinstance(tgt.value, ast.Name) and tgt.value.id == "self"):
+            continue
+        if tgt.attr == "state_id":
+            if ast.unparse(n.value) != "int(time.time())":
+                probs.append(f"state_id is assigned {ast.unparse(n.value)!r}")
+            state_line = n.lineno
+        if tgt.attr == "end_to_end_seq":
+            v = n.value
+            ok = (isinstance(v, ast.Call) and ast.unparse(v.func) == "SequenceGenerator" and
+                  ((len(v.args) == 1 and ast.unparse(v.args[0]) == "self.state_id" and not v.keywords) or
+                   (not v.args and len(v.keywords) == 1 and v.keywords[0].arg == "include_now" and
+                    ast.unparse(v.keywords[0].value) == "self.state_id")))
+            if not ok:
+                probs.append(f"end_to_end_seq is assigned {ast.unparse(v)!r}")
+            e2e_line = n.lineno
+    if state_line is None or e2e_line is None:
+        probs.append("assignment of state_id / end_to_end_seq not found")
+    elif state_line > e2e_line:
+        probs.append("state_id is assigned after the generator is created")
+    return [GroundOb("C16.struct.e2e-seeded", not probs, "; ".join(probs), backend="ast")]
+
+
+def c15_soft_errors(prog):
+    """C15.soft: the write errors the property names as soft (EAGAIN, EINTR, ENOBUFS; EWOULDBLOCK = EAGAIN) are members of
+    the real SOFT_SOCKET_FAILURES tuple, so the send branch retries instead of closing (finite list, evaluated on the
+    imported module)."""
+    import errno
+    node = real("diameter.node.node")
+    out = []
+    for nm in ("EAGAIN", "EWOULDBLOCK", "EINTR", "ENOBUFS"):
+        ok = getattr(errno, nm) in node.SOFT_SOCKET_FAILURES
+        out.append(GroundOb(f"C15.soft[{nm}]", ok, "" if ok else f"errno.{nm} is treated as a hard failure"))
+    return out
